@@ -52,7 +52,11 @@ def wtStep (s : WTState) (toks : List String) : WTState × String :=
     ({ s with w := w' }, "wire " ++ hexOf (w'.out.drop before))
   | "rnew" :: limit :: tl :: cf :: hex :: _ =>
     -- fragment sizes and the bufio size are the implementation's business
-    ({ s with r := { input := unhex hex, tail := if tl = "f" then .fail else .eof,
+    -- t<k>: one read error after k bytes (what the stream would deliver afterwards is never looked at:
+    -- the failure is sticky), i.e. the stream cut at k with a failing tail
+    let transient := tl.startsWith "t"
+    ({ s with r := { input := if transient then (unhex hex).take (tl.drop 1).toString.toNat! else unhex hex,
+                     tail := if tl = "f" ∨ transient then .fail else .eof,
                      limit := limit.toNat!, closeFails := cf = "1" }, hasReader := false }, "ok")
   | ["next"] =>
     let (o, c, h) := nextN 1 s.r
